@@ -56,8 +56,8 @@ PROPS["C01"] = {
              "root CID hash kind = header length, data-frame variants); bulk unit appends 99..10001 uniform blocks. non-trivial = >=2 blocks, >=2 transactions and >=1 section with a 2- or 3-byte length varint; distinct by case hash"),
     "assumptions": ["reference encoder and cargen CAR writer are correct (a wrong generator shows as a false alarm on the unchanged tree, not as a silent pass)"],
     "units": [
-        {"name": "index-all", "pkg": ".", "run": "TestVfC01", "checks": T(240, 4800), "shards": T(6, 16), "timeout": T(900, 3000), "transforms": BUCKET_RESERVE, "env": ROOT_ENV},
-        {"name": "index-all-bulk", "pkg": ".", "run": "TestVfC01Bulk", "checks": T(2, 48), "shards": T(2, 12), "timeout": T(900, 3000), "transforms": BUCKET_RESERVE, "env": ROOT_ENV, "shrinktime": "5s", "tiers": ("quick", "thorough")},
+        {"name": "index-all", "pkg": ".", "run": "TestVfC01", "checks": T(240, 40000), "shards": T(6, 16), "timeout": T(900, 3000), "transforms": BUCKET_RESERVE, "env": ROOT_ENV},
+        {"name": "index-all-bulk", "pkg": ".", "run": "TestVfC01Bulk", "checks": T(2, 96), "shards": T(2, 12), "timeout": T(900, 3000), "transforms": BUCKET_RESERVE, "env": ROOT_ENV, "shrinktime": "5s", "tiers": ("quick", "thorough")},
     ],
 }
 
@@ -70,8 +70,8 @@ PROPS["C18"] = {
     "assumptions": ["Go runtime scheduling of the released goroutines"],
     "units": [
         {"name": "exhaustive", "pkg": ".", "run": "TestVfC18Exhaustive", "kind": "plain", "checks": 0, "shards": T(4, 16), "timeout": T(600, 3000), "env": {"VERIF_C18_MAXN": T(4, 6)}},
-        {"name": "sampled", "pkg": ".", "run": "TestVfC18Rapid", "checks": T(2000, 100000), "shards": T(4, 16), "timeout": T(600, 3000)},
-        {"name": "epoch-search", "pkg": ".", "run": "TestVfC18Epochs", "replay": "TestVfReplayC18Epochs", "checks": T(600, 40000), "shards": T(4, 16), "timeout": T(600, 3000), "transforms": BUCKET_RESERVE, "env": ROOT_ENV},
+        {"name": "sampled", "pkg": ".", "run": "TestVfC18Rapid", "checks": T(2000, 1000000), "shards": T(4, 16), "timeout": T(600, 3000)},
+        {"name": "epoch-search", "pkg": ".", "run": "TestVfC18Epochs", "replay": "TestVfReplayC18Epochs", "checks": T(600, 400000), "shards": T(4, 16), "timeout": T(600, 3000), "transforms": BUCKET_RESERVE, "env": ROOT_ENV},
     ],
 }
 
@@ -94,7 +94,7 @@ PROPS["C14"] = {
     "rule": ("rapid draws payload seed/size, frame count, layout (schema fan-out or random tree), child order, checksum kind, fault kind and target frames; non-trivial = >=3 frames and >=2 levels of next links; distinct by case hash"),
     "assumptions": ["CRC64/FNV collisions on the injected faults are negligible (2^-64)"],
     "units": [
-        {"name": "frames", "pkg": ".", "run": "TestVfC14", "checks": T(12000, 600000), "shards": T(8, 16), "timeout": T(600, 3000)},
+        {"name": "frames", "pkg": ".", "run": "TestVfC14", "checks": T(12000, 3000000), "shards": T(8, 16), "timeout": T(600, 3000)},
     ],
 }
 
@@ -106,8 +106,8 @@ PROPS["C16"] = {
     "assumptions": ["bytes.Reader / io.SectionReader / os.File ReadAt semantics"],
     "units": [
         {"name": "multireader-exhaustive", "pkg": "./split-car-fetcher", "run": "TestVfC16Exhaustive", "kind": "plain", "checks": 0, "shards": T(4, 16), "timeout": T(600, 3000), "env": {"VERIF_C16_PIECES": T(4, 5)}},
-        {"name": "split-car", "pkg": ".", "run": "TestVfC16Split", "replay": "TestVfReplayC16Split", "checks": T(150, 6000), "shards": T(6, 16), "timeout": T(600, 3000)},
-        {"name": "readers-random", "pkg": "./split-car-fetcher", "run": "TestVfC16Random", "checks": T(3000, 200000), "shards": T(4, 16), "timeout": T(600, 3000)},
+        {"name": "split-car", "pkg": ".", "run": "TestVfC16Split", "replay": "TestVfReplayC16Split", "checks": T(150, 20000), "shards": T(6, 16), "timeout": T(600, 3000)},
+        {"name": "readers-random", "pkg": "./split-car-fetcher", "run": "TestVfC16Random", "checks": T(3000, 1000000), "shards": T(4, 16), "timeout": T(600, 3000)},
     ],
 }
 
@@ -118,10 +118,10 @@ PROPS["C17"] = {
     "rule": ("rapid draws file size and 1..60 operations with range classes; non-trivial = history with a read served from a cached superset, a SetRange replacing cached subsets, or an injected failure; exhaustive unit enumerates all histories up to the stated length; distinct by case hash"),
     "assumptions": ["time.Since(entry) > -1h is always true (used to force expiry)"],
     "units": [
-        {"name": "histories", "pkg": "./range-cache", "run": "TestVfC17", "checks": T(20000, 1000000), "shards": T(4, 16), "timeout": T(600, 3000)},
+        {"name": "histories", "pkg": "./range-cache", "run": "TestVfC17", "checks": T(20000, 5000000), "shards": T(4, 16), "timeout": T(600, 3000)},
         {"name": "exhaustive", "pkg": "./range-cache", "run": "TestVfC17Exhaustive", "kind": "plain", "checks": 0, "shards": T(4, 16), "timeout": T(600, 3000), "env": {"VERIF_C17_LEN": T(2, 3)}},
-        {"name": "concurrent", "pkg": "./range-cache", "run": "TestVfC17Concurrent", "replay": "TestVfReplayC17Concurrent", "checks": T(300, 20000), "shards": T(2, 8), "timeout": T(600, 3000), "crash_is_violation": True},
-        {"name": "http", "pkg": "./split-car-fetcher", "run": "TestVfC17HTTP", "replay": "TestVfReplayC17HTTP", "checks": T(150, 6000), "shards": T(3, 12), "timeout": T(600, 3000)},
+        {"name": "concurrent", "pkg": "./range-cache", "run": "TestVfC17Concurrent", "replay": "TestVfReplayC17Concurrent", "checks": T(300, 60000), "shards": T(2, 8), "timeout": T(600, 3000), "crash_is_violation": True},
+        {"name": "http", "pkg": "./split-car-fetcher", "run": "TestVfC17HTTP", "replay": "TestVfReplayC17HTTP", "checks": T(150, 20000), "shards": T(3, 12), "timeout": T(600, 3000)},
     ],
 }
 
@@ -160,8 +160,8 @@ PROPS["C07"] = {
     "assumptions": ["the real gsfa writer is correct for < 1000 entries per address (judged by C06)"],
     "units": [
         {"name": "reader-exhaustive", "pkg": "./gsfa", "run": "TestVfC07Exhaustive", "kind": "plain", "checks": 0, "shards": T(8, 16), "timeout": T(900, 3000), "transforms": GSFA_FASTPOLL, "env": {"VERIF_C07_STRIDE": T(3, 1)}},
-        {"name": "handler", "pkg": ".", "run": "TestVfC07Handler", "replay": "TestVfReplayC07Handler", "checks": T(96, 2000), "shards": T(6, 16), "timeout": T(900, 3000), "transforms": GSFA_FASTPOLL + BUCKET_RESERVE, "env": ROOT_ENV},
-        {"name": "reader-random", "pkg": "./gsfa", "run": "TestVfC07Random", "checks": T(40, 2000), "shards": T(4, 16), "timeout": T(900, 3000), "transforms": GSFA_FASTPOLL},
+        {"name": "handler", "pkg": ".", "run": "TestVfC07Handler", "replay": "TestVfReplayC07Handler", "checks": T(96, 8000), "shards": T(6, 16), "timeout": T(900, 3000), "transforms": GSFA_FASTPOLL + BUCKET_RESERVE, "env": ROOT_ENV},
+        {"name": "reader-random", "pkg": "./gsfa", "run": "TestVfC07Random", "checks": T(40, 8000), "shards": T(4, 16), "timeout": T(900, 3000), "transforms": GSFA_FASTPOLL},
     ],
 }
 
@@ -172,7 +172,7 @@ PROPS["C15"] = {
     "rule": ("rapid draws an epoch spec, ignore-set, delay pattern, GOMAXPROCS and reader speed; non-trivial = >=2 groups and (non-empty ignore set or a delayed callback); distinct by case hash"),
     "assumptions": ["cargen offsets are correct (cross-checked by C01 against the real indexer)"],
     "units": [
-        {"name": "traversal", "pkg": "./accum", "run": "TestVfC15", "checks": T(1500, 60000), "shards": T(6, 16), "timeout": T(900, 3000)},
+        {"name": "traversal", "pkg": "./accum", "run": "TestVfC15", "checks": T(1500, 120000), "shards": T(6, 16), "timeout": T(900, 3000)},
     ],
 }
 
@@ -183,7 +183,7 @@ PROPS["C02"] = {
     "rule": ("rapid draws 1..3 or 3..6 epoch specs (distinct epoch numbers; required class epochs>2*concurrency), concurrency and an encoding rotation; every block and transaction of every loaded epoch is queried. non-trivial = >=2 epochs loaded and (a block with >=2 transactions over >=2 entries or a transaction with multi-frame metadata); distinct by case hash"),
     "assumptions": ["the handler is called in-process through fasthttp.RequestCtx.Init (no network stack)"],
     "units": [
-        {"name": "rpc", "pkg": ".", "run": "TestVfC02", "checks": T(96, 4800), "shards": T(8, 16), "timeout": T(900, 3000), "transforms": BUCKET_RESERVE, "env": ROOT_ENV},
+        {"name": "rpc", "pkg": ".", "run": "TestVfC02", "checks": T(96, 24000), "shards": T(8, 16), "timeout": T(900, 3000), "transforms": BUCKET_RESERVE, "env": ROOT_ENV},
     ],
 }
 
@@ -194,7 +194,7 @@ PROPS["C03"] = {
     "rule": ("rapid draws 1..3 epoch specs (+150..600 bulk blocks each), a probe seed and an unloaded epoch; non-trivial = at least one absent key that collides with a stored key in the real index was queried; distinct by case hash; the per-class numbers of colliding keys are in class_counts (n-colliding-*)"),
     "assumptions": ["sha-256/xxhash behave as random functions for the collision search"],
     "units": [
-        {"name": "absent-keys", "pkg": ".", "run": "TestVfC03", "replay": "TestVfReplayC03", "checks": T(48, 1600), "shards": T(8, 16), "timeout": T(900, 3000), "transforms": GSFA_FASTPOLL + BUCKET_RESERVE, "env": ROOT_ENV},
+        {"name": "absent-keys", "pkg": ".", "run": "TestVfC03", "replay": "TestVfReplayC03", "checks": T(48, 4800), "shards": T(8, 16), "timeout": T(900, 3000), "transforms": GSFA_FASTPOLL + BUCKET_RESERVE, "env": ROOT_ENV},
     ],
 }
 
@@ -205,7 +205,7 @@ PROPS["C10"] = {
     "rule": ("rapid draws three epoch specs; per case ~140 configurations are derived deterministically (6 roles x {B, A'} singles, 20 cross-role swaps, 60 pairs, all-A'); non-trivial = case in which at least one configuration must be rejected; distinct by case hash; class_counts reports configurations-tried and foreign-car-cid-fetches"),
     "assumptions": ["identity oracle derived from the property statement (kind, epoch, root)"],
     "units": [
-        {"name": "identity", "pkg": ".", "run": "TestVfC10", "checks": T(32, 960), "shards": T(8, 16), "timeout": T(900, 3000), "shrinktime": "10s", "transforms": GSFA_FASTPOLL + BUCKET_RESERVE, "env": ROOT_ENV},
+        {"name": "identity", "pkg": ".", "run": "TestVfC10", "checks": T(32, 4800), "shards": T(8, 16), "timeout": T(900, 3000), "shrinktime": "10s", "transforms": GSFA_FASTPOLL + BUCKET_RESERVE, "env": ROOT_ENV},
     ],
 }
 
@@ -216,7 +216,7 @@ PROPS["C13"] = {
     "rule": ("rapid draws an epoch spec and a cut seed; cuts: every offset for files <=4 KiB, else header/table/bucket boundaries +-2 and 60..200 random offsets; keys: every stored key up to 200 per file. non-trivial lookup = the cut lies before the highest byte the complete-file lookup of that key reads"),
     "assumptions": ["reads of a truncated file behave like reads of bytes.Reader / os.File at EOF (short read + io.EOF)"],
     "units": [
-        {"name": "truncation", "pkg": ".", "run": "TestVfC13", "checks": T(16, 640), "shards": T(8, 16), "timeout": T(900, 3000), "shrinktime": "20s", "transforms": GSFA_FASTPOLL + BUCKET_RESERVE, "env": ROOT_ENV},
+        {"name": "truncation", "pkg": ".", "run": "TestVfC13", "checks": T(16, 1600), "shards": T(8, 16), "timeout": T(900, 3000), "shrinktime": "20s", "transforms": GSFA_FASTPOLL + BUCKET_RESERVE, "env": ROOT_ENV},
     ],
 }
 
@@ -228,7 +228,7 @@ PROPS["C08"] = {
     "assumptions": ["handlers are invoked in-process (fasthttp.RequestCtx.Init, fake grpc.ServerStream); the network stack and the generated gRPC glue are not exercised"],
     "units": [
         {"name": "requests", "pkg": ".", "run": "TestVfC08", "checks": T(20000, 1000000), "shards": T(8, 16), "timeout": T(900, 3000), "transforms": GSFA_FASTPOLL + BUCKET_RESERVE, "env": ROOT_ENV, "crash_is_violation": True, "shrinktime": "20s"},
-        {"name": "fuzz", "pkg": ".", "run": "FuzzVfC08Body", "kind": "fuzz", "tiers": ("thorough",), "fuzztime": T("30s", "300s"), "workers": 16, "shards": 1, "checks": 0, "timeout": T(600, 1800), "transforms": GSFA_FASTPOLL, "env": {"GOGC": "100"}},
+        {"name": "fuzz", "pkg": ".", "run": "FuzzVfC08Body", "kind": "fuzz", "tiers": ("thorough",), "fuzztime": T("30s", "300s"), "workers": 16, "shards": 1, "checks": 0, "timeout": T(600, 1800), "transforms": GSFA_FASTPOLL + BUCKET_RESERVE, "env": {"GOGC": "100"}},
     ],
 }
 
@@ -239,7 +239,7 @@ PROPS["C19"] = {
     "rule": ("rapid draws 1..3 epoch specs and 4..14 queries; non-trivial = StreamTransactions query whose range contains >=1 skipped slot and >=2 blocks and whose filter both accepts and rejects a transaction of the range; distinct by case hash"),
     "assumptions": ["reference predicate: a transaction mentions an account if it is among its static keys or its loaded addresses"],
     "units": [
-        {"name": "streams", "pkg": ".", "run": "TestVfC19", "checks": T(128, 4800), "shards": T(8, 16), "timeout": T(900, 3000), "transforms": GSFA_FASTPOLL + BUCKET_RESERVE, "env": ROOT_ENV, "shrinktime": "20s"},
+        {"name": "streams", "pkg": ".", "run": "TestVfC19", "checks": T(128, 14400), "shards": T(8, 16), "timeout": T(900, 3000), "transforms": GSFA_FASTPOLL + BUCKET_RESERVE, "env": ROOT_ENV, "shrinktime": "20s"},
     ],
 }
 
@@ -255,8 +255,8 @@ PROPS["C09"] = {
     "rule": ("stress: rapid draws readers x ops, writers x ops, GOMAXPROCS, class A/B; non-trivial = >=2 readers, >=1 writer and an epoch-listing operation that overlapped a running writer (measured); monitor: 1..40 ops per list, non-trivial = >=2 ops; distinct by case hash"),
     "assumptions": ["a 12 s stall with goroutines parked in RWMutex.RLock/Lock is a deadlock (each operation takes milliseconds)"],
     "units": [
-        {"name": "lock-monitor", "pkg": ".", "run": "TestVfC09Monitor", "checks": T(400, 20000), "shards": T(4, 16), "timeout": T(900, 3000), "transforms": C09_MONITOR + BUCKET_RESERVE, "env": ROOT_ENV},
-        {"name": "stress", "pkg": ".", "run": "TestVfC09Stress", "checks": T(100, 3000), "shards": T(4, 8), "timeout": T(900, 3000), "transforms": GSFA_FASTPOLL + BUCKET_RESERVE, "env": ROOT_ENV, "shrinktime": "20s", "crash_is_violation": True},
+        {"name": "lock-monitor", "pkg": ".", "run": "TestVfC09Monitor", "checks": T(400, 100000), "shards": T(4, 16), "timeout": T(900, 3000), "transforms": C09_MONITOR + BUCKET_RESERVE, "env": ROOT_ENV},
+        {"name": "stress", "pkg": ".", "run": "TestVfC09Stress", "checks": T(100, 12000), "shards": T(4, 8), "timeout": T(900, 3000), "transforms": GSFA_FASTPOLL + BUCKET_RESERVE, "env": ROOT_ENV, "shrinktime": "20s", "crash_is_violation": True},
     ],
 }
 
@@ -267,8 +267,8 @@ PROPS["C12"] = {
     "rule": ("rapid draws target, seed file, mutation kind and positions/values; non-trivial = mutated input that passes the first validation stage of its parser (reported per target as deep:<target>); distinct by input hash"),
     "assumptions": ["valid seeds come from one generated epoch built at process start"],
     "units": [
-        {"name": "mutation", "pkg": ".", "run": "TestVfC12", "checks": T(64000, 1200000), "shards": T(8, 16), "timeout": T(900, 3000), "transforms": GSFA_FASTPOLL, "env": {"GOGC": "100"}, "shrinktime": "15s"},
-        {"name": "fuzz", "pkg": ".", "run": "FuzzVfC12", "kind": "fuzz", "tiers": ("thorough",), "fuzztime": T("30s", "300s"), "workers": 16, "shards": 1, "checks": 0, "timeout": T(600, 1800), "transforms": GSFA_FASTPOLL, "env": {"GOGC": "100"}},
+        {"name": "mutation", "pkg": ".", "run": "TestVfC12", "checks": T(64000, 4000000), "shards": T(8, 16), "timeout": T(900, 3000), "transforms": GSFA_FASTPOLL + BUCKET_RESERVE, "env": {"GOGC": "100"}, "shrinktime": "15s"},
+        {"name": "fuzz", "pkg": ".", "run": "FuzzVfC12", "kind": "fuzz", "tiers": ("thorough",), "fuzztime": T("30s", "300s"), "workers": 16, "shards": 1, "checks": 0, "timeout": T(600, 1800), "transforms": GSFA_FASTPOLL + BUCKET_RESERVE, "env": {"GOGC": "100"}},
     ],
 }
 
